@@ -3,8 +3,9 @@
 # claimed check against it; every line must say rc=0 (or rc=2 = undecided, never rc=1)
 cd /verif
 props=$(python3 -c "import json; print(' '.join(c['property_id'] for c in json.load(open('MANIFEST.json'))['checks']))")
-for d in seeded/keep/keep*.diff; do
+for d in ${KEEP_GLOB:-seeded/keep/keep*.diff seeded/keep/sem*.diff}; do
   k=$(basename $d .diff)
+  case $k in *.orig) continue;; esac
   W=$(mktemp -d /tmp/kc-XXXXXX); rmdir "$W"
   git -C /repo worktree add -q "$W" HEAD || exit 3
   (cd "$W" && git apply /verif/$d) || { echo "$k PATCH DOES NOT APPLY"; git -C /repo worktree remove --force "$W"; continue; }
